@@ -682,7 +682,12 @@ def cli_scope(res, pid, rng, tier):
             # files in sub directories, with addresses that occur in no top-level file: one run, one map
             sub_addrs = [ipgen_rand4(rng) for _ in range(5)]
             files_in[os.path.join("site1", "pop", "r2.cfg")] = "".join("ntp server %s\n" % ipaddress.IPv4Address(a_) for a_ in sub_addrs[:3])
-            files_in[os.path.join("site2", "r3.cfg")] = "".join("logging host %s\n" % ipaddress.IPv4Address(a_) for a_ in sub_addrs[3:])
+            files_in[os.path.join("site2", "r3.cfg")] = "".join("logging host %s\n" % ipaddress.IPv4Address(a_) for a_ in sub_addrs[3:5])
+            if pid == "C17" and r % 2 == 0:
+                # many small files, each with an address of its own (however the files are scheduled, there is one map)
+                for k_ in range(18):
+                    sub_addrs.append(ipgen_rand4(rng))
+                    files_in[os.path.join("bulk", "f%02d.cfg" % k_)] = "ntp server %s\n" % ipaddress.IPv4Address(sub_addrs[-1])
         if pid == "C17" and r % 2 == 1:
             # written as undecodable bytes: this file fails, the map must still be complete (and if the file is processed after all,
             # its address belongs in the map like any other)
@@ -777,7 +782,8 @@ def cli_scope(res, pid, rng, tier):
             if pid == "C17" and bl and bl[0].split(" ")[-1] != "11.22.33.44" and m.get("11.22.33.44") != bl[0].split(" ")[-1]:
                 fails.append(dict(meta, kind="replaced address missing from the dump file or listed with another image", file="blob.bin (not valid UTF-8)",
                                   address="11.22.33.44", used=bl[0].split(" ")[-1], listed=m.get("11.22.33.44")))
-            for rel_, addrs_ in ((os.path.join("site1", "pop", "r2.cfg"), sub_addrs[:3]), (os.path.join("site2", "r3.cfg"), sub_addrs[3:])):
+            bulk_ = [(os.path.join("bulk", "f%02d.cfg" % k_), [a_]) for k_, a_ in enumerate(sub_addrs[5:])]
+            for rel_, addrs_ in [(os.path.join("site1", "pop", "r2.cfg"), sub_addrs[:3]), (os.path.join("site2", "r3.cfg"), sub_addrs[3:5])] + bulk_:
                 if pid != "C17" or not addrs_:
                     continue
                 lo_ = outs.get(rel_, "").split("\n")[:-1]
